@@ -2,6 +2,8 @@ package main
 
 import (
 	"fmt"
+	"go/constant"
+	"go/token"
 	"strings"
 
 	"golang.org/x/tools/go/ssa"
@@ -150,4 +152,132 @@ func errorIsObserved(call *ssa.Call) (bool, string) {
 		}
 	}
 	return false, fmt.Sprintf("the error of this call is never branched on nor returned (%d use(s), e.g. only logged or overwritten)", len(evs))
+}
+
+// ruleTestedSentinelsAreWrapped: an error value that some branch of the module recognises with errors.Is must still be
+// recognisable when it gets there. Where such a sentinel is put into a new error with fmt.Errorf, its verb has to be %w;
+// any other verb prints it, and the branch that waits for it is never taken again.
+func ruleTestedSentinelsAreWrapped(c *Ctx, rule string, floor int) {
+	c.ranRules[rule] = true
+	tested := map[*ssa.Global]string{}
+	sentinelOf := func(v ssa.Value) *ssa.Global {
+		v = stripConv(v)
+		if u, ok := v.(*ssa.UnOp); ok && u.Op == token.MUL {
+			if g, ok := u.X.(*ssa.Global); ok && isErrorType(derefType(g.Type())) && g.Pkg != nil && strings.HasPrefix(g.Pkg.Pkg.Path(), modPath) {
+				return g
+			}
+		}
+		return nil
+	}
+	var fns []*ssa.Function
+	for _, root := range c.P.SubjectFns() {
+		if isControlFn(root) || root.Parent() != nil {
+			continue
+		}
+		fns = append(fns, withClosures(root)...)
+	}
+	for _, fn := range fns {
+		for _, ci := range callsIn(fn, func(ci ssa.CallInstruction) bool { return calleeName(ci) == "errors.Is" }) {
+			if g := sentinelOf(ci.Common().Args[1]); g != nil {
+				tested[g] = shortPos(c.P, ci)
+			}
+		}
+	}
+	n := 0
+	for _, fn := range fns {
+		for _, ci := range callsIn(fn, func(ci ssa.CallInstruction) bool { return calleeName(ci) == "fmt.Errorf" }) {
+			args := ci.Common().Args
+			if len(args) < 2 {
+				continue
+			}
+			format, ok := args[0].(*ssa.Const)
+			if !ok || format.Value == nil {
+				continue
+			}
+			elems := variadicElemsIndexed(args[1])
+			for i, el := range elems {
+				g := sentinelOf(el)
+				if g == nil || tested[g] == "" {
+					continue
+				}
+				n++
+				verbs := formatVerbs(constant.StringVal(format.Value))
+				good := i < len(verbs) && verbs[i] == 'w'
+				v := "?"
+				if i < len(verbs) {
+					v = "%" + string(verbs[i])
+				}
+				c.Ok(rule, fmt.Sprintf("%s puts %s into a new error so that it is still recognised", fnShort(fn), g.Name()), shortPos(c.P, ci), good,
+					fmt.Sprintf("%s is tested with errors.Is at %s; in the format its verb is %s (only %%w keeps it recognisable)", g.Name(), tested[g], v))
+			}
+		}
+	}
+	c.Floor(rule, "tested sentinels wrapped into new errors", n, floor)
+}
+
+// variadicElemsIndexed: the values stored into the slice built for a variadic call.
+func variadicElemsIndexed(v ssa.Value) []ssa.Value {
+	sl, ok := v.(*ssa.Slice)
+	if !ok {
+		return nil
+	}
+	a, ok := sl.X.(*ssa.Alloc)
+	if !ok {
+		return nil
+	}
+	out := map[int64]ssa.Value{}
+	max := int64(-1)
+	for _, r := range *a.Referrers() {
+		ia, ok := r.(*ssa.IndexAddr)
+		if !ok {
+			continue
+		}
+		k, isK := constInt(ia.Index)
+		if !isK {
+			continue
+		}
+		for _, rr := range *ia.Referrers() {
+			if st, ok := rr.(*ssa.Store); ok && st.Addr == ssa.Value(ia) {
+				val := st.Val
+				if mi, ok := val.(*ssa.MakeInterface); ok {
+					val = mi.X
+				}
+				out[k] = val
+				if k > max {
+					max = k
+				}
+			}
+		}
+	}
+	res := make([]ssa.Value, max+1)
+	for k, v := range out {
+		res[k] = v
+	}
+	return res
+}
+
+// formatVerbs: the verb letters of a format string, one per operand consumed (no explicit argument indexes).
+func formatVerbs(f string) []byte {
+	var out []byte
+	for i := 0; i < len(f); i++ {
+		if f[i] != '%' {
+			continue
+		}
+		i++
+		for i < len(f) && strings.IndexByte("+-# 0123456789.", f[i]) >= 0 {
+			i++
+		}
+		if i >= len(f) {
+			break
+		}
+		if f[i] == '%' {
+			continue
+		}
+		if f[i] == '*' {
+			out = append(out, '*')
+			continue
+		}
+		out = append(out, f[i])
+	}
+	return out
 }
